@@ -20,8 +20,8 @@ CLAIMED = {
             'Answer sets, per-answer additionals, TTLs and flush marking of QueryHandler.async_response equal a declarative reference responder for every enumerated (registry script, questions, known answers) shape, for all service TTLs 1..2^31-1 and known-answer TTLs 0..2^32-1 (half-TTL boundary solver-decided).',
             'Trusted: as C05 plus the reference responder in vkit/responder.py. Question types and names are enumerated, not symbolic.'),
     'C07': ('DESIGN.md 4 C07', E1,
-            'Smallest instance of the property only: two complete socket-less instances on one fake loop (one registers then unregisters a service, one browses and resolves the service from its Added callback) joined by a link delivering every multicast datagram to both hosts; the registration instant and the delay (0..100 ms) of one or two datagrams are solver variables and one chosen datagram (each of the first ten, each goodbye) is dropped. Convergence (one Added, resolvable, one Removed) within 6 s / 3 s is decided for every value.',
-            'Trusted: as C05 plus the link model in props/c07.py. Everything larger - 3..5 hosts, several services / types, update and close, duplication, arbitrary reordering, all delays symbolic at once - is outside the claim; the mechanisms are decided separately under C03, C04, C06, C08, C09, C10, C13, C18.'),
+            'Smallest instance of the property only: two complete socket-less instances on one fake loop (one registers then unregisters a service, one browses and resolves the service from its Added callback) joined by a link delivering every multicast datagram to both hosts; the registration instant and the delay (0..100 ms) of one or two datagrams are solver variables and one chosen datagram (each of the first ten, each goodbye) is dropped. Convergence (one Added, resolvable incl. TXT, one Removed) within 6 s / 3 s is decided for every value. Further concrete scenarios with the same symbolic instants: a datagram duplicated 0..100 ms later, withdrawal by async_close, an update (new port / TXT), a third host that browses and owns a service.',
+            'Trusted: as C05 plus the link model in props/c07.py. Trusted also: the link model in vkit/link.py. Everything larger - 4..5 hosts, several types, arbitrary reordering, all delays symbolic at once - is outside the claim; the mechanisms are decided separately under C03, C04, C06, C08, C09, C10, C13, C18.'),
     'C08': ('DESIGN.md 4 C08', E1,
             'Three complete goodbyes 125 ms apart (address / NSEC only when no remaining service shares the host) and no withdrawn record with TTL > 0 after the third, for a query and the withdrawal at independent symbolic offsets 0..2000 ms in either order, all jitter draws and sighting ages; unregister and unregister-all, 1..2 services.',
             'Trusted: as C05 plus timers firing exactly on time. close() of the whole instance is C17.'),
@@ -33,10 +33,10 @@ CLAIMED = {
             'Trusted: as C05; the per-record refresh chain model in props/c10.py; float sites 0.1*ttl and the 1e-6 clock resolution treated as exact reals (lemmas listed in the evidence).'),
     'C11': ('DESIGN.md 4 C11', E1,
             'Destination, socket, id, flags, question echo and answer sets of the unicast / immediate multicast / delayed multicast transmissions for one query (<= 2 questions, QU/QM, probe) match the statement for every source port 0..65535, query id, sighting age and cached TTL; header id, flags, counts and class words of the real packets() read back through value-carrying packer stand-ins for symbolic id / class / flush bit.',
-            'Trusted: as C05; packer stand-ins (vkit/wire.py) preserve widths and values. One registered service, IPv4 sockets only.'),
+            'Trusted: as C05; packer stand-ins (vkit/wire.py) preserve widths and values. One or two registered services; IPv4 sockets, plus dual-stack shapes (one IPv4 and one IPv6 socket, IPv6 source with symbolic flow / scope through the real datagram_received).'),
     'C12': ('DESIGN.md 4 C12', E1,
             'Send times of every multicast answer, for enumerated query sequences (<= 3 queries, probes, truncated trains), lie inside the per-query windows of the statement for all arrival gaps 0..2000 ms, all jitter draws and all sighting ages 0..2500 ms; liveness, safety, economy and batch uniqueness per obligation.',
-            'Trusted: as C05 plus timers firing exactly on time. The one-second rule is checked for answers, not for records riding in the additional section.'),
+            'Trusted: as C05 plus timers firing exactly on time. The one-second rule is checked for answers, not for records riding in the additional section. Own multicast is heard only in the loopback-* shapes.'),
     'C04': ('DESIGN.md 4 C04', E1,
             'Per (type, instance) Added/Removed alternation, equality of the reported-live set with the pointer set of a section-10 model and of the real cache after every event, and visibility of the triggering datagram from inside add_service, for enumerated histories (<= 4 events incl. purge ticks, browser created early or late) with all TTLs and gaps symbolic.',
             'Trusted: as C05. In-loop browser flavour only (the threaded ServiceBrowser hands the same events to a queue).'),
@@ -48,8 +48,8 @@ CLAIMED = {
             'Clause-by-clause listener contract and cache effect of one response datagram after <= 2 prior datagrams, for all TTLs / instants / gaps; CONFIRMED obligations are exhausted path trees.',
             'Trusted: as C05. Datagrams are built as DNSIncoming objects directly (codec covered by C01/C02).'),
     'C13': ('DESIGN.md 4 C13', E1,
-            'Known answers attached by generate_service_query and ServiceInfo._generate_request_query are exactly the matching records with more than half their TTL left (ages / TTLs symbolic), stamped with the query instant; _write_ttl writes floor(remaining seconds) for all created / ttl / now; duplicate-question suppression between two askers (own query or question heard as responder) decided for every gap 0..2500 ms and known-answer relation.',
-            'Trusted: as C05; caches of <= 4 records. QU-then-QM of browsers is decided in C10, the lookup schedule in C18, TC splitting in C14.'),
+            'Known answers attached by generate_service_query and ServiceInfo._generate_request_query are exactly the matching records with more than half their TTL left (ages / TTLs symbolic), stamped with the query instant; _write_ttl writes floor(remaining seconds) for all created / ttl / now; duplicate-question suppression between two askers (own query or question heard as responder) decided for every gap 0..2500 ms and known-answer relation; for caches of 60..110 pointer records learned in groups (one symbolic age / TTL per group) the real bucketing and packets() splitting are read back: every fresh record listed once with its remaining TTL, TC on all datagrams but the last, questions never repeated.',
+            'Trusted: as C05; caches of <= 4 records with per-record symbolic ages, or up to about 110 records in groups. QU-then-QM of browsers is decided in C10, the lookup schedule in C18, splitting in general in C14.'),
     'C14': ('DESIGN.md 4 C14', E1,
             'Per datagram built by the real packets(): octets == accounted size <= 8966, <= 1460 unless it holds a single entry, id / flags / TC rule, header counts == entries present, every entry read back (independent reader following compression pointers through symbolic offsets) with its own owner name, type, RDLENGTH and rdata names; over the sequence every entry exactly once in order - for messages of <= 7 entries whose TXT rdata lengths 0..8900 are solver variables.',
             'Trusted: as C01. Entries that cannot fit 8966 octets alone, and hundreds of entries, are outside.'),
@@ -58,12 +58,12 @@ CLAIMED = {
             'Trusted: as C02. One adversarial datagram per obligation. Both escaping exceptions named in the property (pointer-chain RecursionError, echo of an invalid-UTF-8 label) were found by these obligations and are repaired by fix: commits (known_findings.json, fixed).'),
     'C16': ('DESIGN.md 4 C16', E1,
             'Metamorphic equivalence on each symbolic path: a history run with every datagram repeated dgap ms later (0..999) and the same history without repeats (identical random draws) produce identical multicast transmissions, browser callbacks and record-listener calls, and identical unicast replies except for a repeated QU reply; offsets, dgap, TTLs, sighting ages symbolic.',
-            'Trusted: as C05; datagrams are opaque byte tokens mapped to prebuilt messages (the listener guard and dispatch are the real code); no loop-back of the host own multicast.'),
+            'Trusted: as C05; datagrams are opaque byte tokens mapped to prebuilt messages (the listener guard and dispatch are the real code); loop-back of the host own multicast only in the loopback-* shapes (copy delivered back to back). One known finding (a duplicated QU query for a record not recently multicast is answered by multicast twice) is listed in known_findings.json.'),
     'C17': ('DESIGN.md 4 C17', E1,
             'After the real AsyncZeroconf.async_close returns - requested at any instant 0..close_max ms into probing / announcing / queued answers / a deferred truncated query / browser start-up / a pending lookup - nothing is transmitted, no callback fires and no leftover timer raises during 3 h of virtual time and further datagrams; sockets closed, registry empty, goodbyes sent for everything registered at the request, second close a no-op.',
-            'Trusted: as C05 plus asyncio.gather / wait_for / timeout running on the fake loop. close() from a foreign thread is outside (threads are not symbolically executable).'),
+            'Trusted: as C05 plus asyncio.gather / wait_for / timeout running on the fake loop. close() from a foreign thread is outside (threads are not symbolically executable). A browser the application created itself and never cancels is covered for transmissions / timers / exceptions.'),
     'C18': ('DESIGN.md 4 C18', E1,
-            'Return instant, result, fields, no transmission when the cache suffices, QU-then-QM, omitted questions and query spacing of the real async_request coroutine for every timeout, every age / TTL of pre-cached records and every arrival offset / TTL of later records, over enumerated cache contents and arrival orders.',
+            'Return instant, result, fields (addresses only from records unexpired when read; exactly the unexpired cached addresses when answered from the cache), no transmission when the cache suffices, QU-then-QM, omitted questions and query spacing of the real async_request coroutine for every timeout, every age / TTL of pre-cached records and every arrival offset / TTL of later records, over enumerated cache contents and arrival orders.',
             'Trusted: as C05. Timeout range 200..1000 ms when records are cached or arrive (200..10000 ms otherwise) to keep path trees exhaustible.'),
     'C19': ('DESIGN.md 4 C19', E1,
             'The real service_type_name body on strings with concrete structure and up to 4 (5) free characters over a 15-code-point alphabet, both strict modes: only BadTypeInNameException, accepted => every documented rule holds and the service type is returned, rejected => some rule is violated; templates at the 15/16-character, 63/64-octet and 256/257-character boundaries. TXT properties: encode / library decode / independent RFC 6763 reader agree for enumerated item structures with solver-chosen lengths.',
